@@ -1056,40 +1056,39 @@ func (w *c01World) liquidate(user sdk.AccAddress, v vaulttypes.Vault, gen1 bool,
 }
 
 // windOp1: under emergency shutdown the first-generation auction module winds down auctions that have run out
-// (x/auction/keeper/dutch.go:517-640). Where the bids have recovered at least the principal, the principal is burnt, the rest
-// goes to the collector, the unsold collateral moves to the emergency redemption pool and the seized vault leaves the books
-// — for the vault ledger the same step as a normal close (`settle1`). Where less than the principal was recovered the module
-// re-creates a vault for the owner instead; that branch is not in the vault model, so an app is wound down here only when
-// every run-out auction of it is of the first kind.
+// (x/auction/keeper/dutch.go:517-640). Where the bids recovered at least the principal, the principal is burnt, the rest goes
+// to the collector, the unsold collateral moves to the emergency redemption pool and the seized vault leaves the books — for
+// the vault ledger the same step as a normal close (`settle1`). Where less was recovered, what was collected is burnt and
+// the unsold collateral returns to vault custody into a vault of the owner that is topped up or re-created (`esmReturn1`).
 func (w *c01World) windOp1() bool {
 	for _, app := range w.apps {
 		st, f := w.app.EsmKeeper.GetESMStatus(w.ctx, app)
 		if !f || !st.Status {
 			continue
 		}
-		type rec struct{ orig uint64 }
+		type rec struct {
+			orig      uint64
+			owner     int
+			cur, infl sdk.Int
+			pool      bool
+		}
 		var due []rec
-		ok := true
 		for _, a := range w.app.AuctionKeeper.GetDutchAuctions(w.ctx, app) {
 			if !w.ctx.BlockTime().After(a.EndTime) {
 				continue
 			}
 			lv, found := w.app.LiquidationKeeper.GetLockedVault(w.ctx, a.AppId, a.LockedVaultId)
-			if !found || a.InflowTokenCurrentAmount.Amount.LT(lv.AmountOut) {
-				ok = false
-				break
+			if !found {
+				continue
 			}
-			due = append(due, rec{lv.OriginalVaultId})
-		}
-		if !ok {
-			w.tr.Count("op:wind1:skipped-return-branch")
-			continue
+			due = append(due, rec{lv.OriginalVaultId, w.acct(lv.Owner), a.OutflowTokenCurrentAmount.Amount, a.InflowTokenCurrentAmount.Amount,
+				a.InflowTokenCurrentAmount.Amount.GTE(lv.AmountOut)})
 		}
 		if len(due) == 0 {
 			continue
 		}
 		_ = w.app.AuctionKeeper.RestartDutch(w.ctx, app)
-		n := 0
+		n, nr := 0, 0
 		for _, d := range due {
 			still := false
 			for _, l := range w.app.LiquidationKeeper.GetLockedVaults(w.ctx) {
@@ -1097,13 +1096,23 @@ func (w *c01World) windOp1() bool {
 					still = true
 				}
 			}
-			if !still {
+			if still {
+				continue
+			}
+			if d.pool {
 				w.tr.Line("vault.msg", "settle1", u(d.orig), "-", "-", "-", "-", "esm=1;past=0;brk=0;pin=-;pout=-;iota=0", "ok")
 				n++
+			} else {
+				w.tr.Line("vault.msg", "esmReturn1", u(d.orig), fmt.Sprint(d.owner), d.cur.String(), d.infl.String(), "-", "esm=1;past=0;brk=0;pin=-;pout=-;iota=0", "ok")
+				nr++
 			}
 		}
-		w.tr.Count(fmt.Sprintf("op:wind1:closed=%d", minInt(n, 3)))
-		w.stateKind("vault.state.settle1")
+		w.tr.Count(fmt.Sprintf("op:wind1:pool=%d:return=%d", minInt(n, 3), minInt(nr, 3)))
+		if nr > 0 {
+			w.stateKind("vault.state.esmreturn")
+		} else {
+			w.stateKind("vault.state.settle1")
+		}
 		return true
 	}
 	return false
@@ -1115,7 +1124,7 @@ func (w *c01World) windOp1() bool {
 func (w *c01World) esmDue() bool {
 	for _, a := range w.apps {
 		st, f := w.app.EsmKeeper.GetESMStatus(w.ctx, a)
-		if f && st.Status && w.ctx.BlockTime().After(st.EndTime) && !(st.VaultRedemptionStatus && st.StableVaultRedemptionStatus && st.CollectorTransaction && st.ShareCalculation) {
+		if f && st.Status && st.SnapshotStatus && w.ctx.BlockTime().After(st.EndTime) && !(st.VaultRedemptionStatus && st.StableVaultRedemptionStatus && st.CollectorTransaction) {
 			return true
 		}
 	}
@@ -1347,6 +1356,64 @@ func c01Corpus(t *testing.T, tr *Trace) {
 			}
 		}
 	}
+	// (3) a vault seized by the FIRST generation, a bid that collects less than the principal; after the shutdown below the
+	//     auction runs out and is wound down: the owner gets a vault back (dutch.go:538-570, the site of the repaired D3)
+	p0 := &w.products[0]
+	if p0.app == ps.app && len(w.users) > 1 {
+		u2 := w.users[1]
+		out := sdk.NewInt(30_000_000)
+		in := w.crBoundaryIn(p0, out).MulRaw(2).AddRaw(10)
+		w.fund(u2, p0.assetIn, in)
+		env = w.env(p0.app, p0.id, 0, false)
+		ok = w.deliver(&vaulttypes.MsgCreateRequest{From: u2.String(), AppId: p0.app, ExtendedPairVaultId: p0.id, AmountIn: in, AmountOut: out})
+		w.tr.Line("vault.msg", "create", fmt.Sprint(w.acct(u2.String())), u(p0.app), u(p0.id), in.String(), out.String(), env, c01Outcome(ok))
+		w.state()
+		if vs := w.vaultsOf(u2.String()); ok && len(vs) > 0 {
+			twa, _ := w.app.MarketKeeper.GetTwa(w.ctx, p0.assetIn)
+			w.setPrice(p0.assetIn, twa.Twa*45/100, true)
+			w.liquidate(user, vs[0], true, twa.Twa)
+			if auc := w.openAuctions1(); len(auc) > 0 {
+				a := auc[0]
+				w.fund(user, p0.assetOut, a.InflowTokenTargetAmount.Amount)
+				w.state()
+				okk := w.deliver(&auctiontypes.MsgPlaceDutchBidRequest{AuctionId: a.AuctionId, Bidder: user.String(),
+					Amount: sdk.NewCoin(a.OutflowTokenCurrentAmount.Denom, a.OutflowTokenCurrentAmount.Amount.QuoRaw(4)), AppId: a.AppId, AuctionMappingId: a.AuctionMappingId})
+				w.tr.Count(fmt.Sprintf("corpus:gen1-partial-bid:%v", okk))
+				w.tr.Line("vault.msg", "donate", "99", "0", "0", "-", "-", "esm=0;past=0;brk=0;pin=-;pout=-;iota=0", "err")
+				w.stateKind("vault.state.bid")
+			}
+		}
+	}
+	// (4) the same with a bid that recovers the principal but not the whole target: the wind-down sends the unsold collateral
+	//     to the redemption pool and the seized vault leaves the books (dutch.go:571-640, the site of the repaired D30)
+	if p0.app == ps.app && len(w.users) > 2 {
+		u3 := w.users[2]
+		out := sdk.NewInt(20_000_000)
+		in := w.crBoundaryIn(p0, out).MulRaw(2)
+		w.fund(u3, p0.assetIn, in)
+		env = w.env(p0.app, p0.id, 0, false)
+		ok = w.deliver(&vaulttypes.MsgCreateRequest{From: u3.String(), AppId: p0.app, ExtendedPairVaultId: p0.id, AmountIn: in, AmountOut: out})
+		w.tr.Line("vault.msg", "create", fmt.Sprint(w.acct(u3.String())), u(p0.app), u(p0.id), in.String(), out.String(), env, c01Outcome(ok))
+		w.state()
+		if vs := w.vaultsOf(u3.String()); ok && len(vs) > 0 {
+			twa, _ := w.app.MarketKeeper.GetTwa(w.ctx, p0.assetIn)
+			w.setPrice(p0.assetIn, twa.Twa*45/100, true)
+			w.liquidate(user, vs[0], true, twa.Twa)
+			for _, a := range w.openAuctions1() {
+				lv, _ := w.app.LiquidationKeeper.GetLockedVault(w.ctx, a.AppId, a.LockedVaultId)
+				if lv.OriginalVaultId != vs[0].Id {
+					continue
+				}
+				w.fund(user, p0.assetOut, a.InflowTokenTargetAmount.Amount)
+				w.state()
+				okk := w.deliver(&auctiontypes.MsgPlaceDutchBidRequest{AuctionId: a.AuctionId, Bidder: user.String(),
+					Amount: sdk.NewCoin(a.OutflowTokenCurrentAmount.Denom, a.OutflowTokenCurrentAmount.Amount.MulRaw(65).QuoRaw(100)), AppId: a.AppId, AuctionMappingId: a.AuctionMappingId})
+				w.tr.Count(fmt.Sprintf("corpus:gen1-principal-recovered-bid:%v", okk))
+				w.tr.Line("vault.msg", "donate", "99", "0", "0", "-", "-", "esm=0;past=0;brk=0;pin=-;pout=-;iota=0", "err")
+				w.stateKind("vault.state.bid")
+			}
+		}
+	}
 	for _, id := range w.assetIDs {
 		w.app.EsmKeeper.SetSnapshotOfPrices(w.ctx, ps.app, id, 1000000)
 	}
@@ -1355,6 +1422,9 @@ func c01Corpus(t *testing.T, tr *Trace) {
 	w.now = w.now.Add(2 * time.Hour)
 	w.height++
 	w.ctx = w.ctx.WithBlockHeight(w.height).WithBlockTime(w.now)
+	if w.windOp1() {
+		w.tr.Count("corpus:gen1-wind-down")
+	}
 	w.esmBlockOp()
 	w.esmRedeemOp(user)
 }
